@@ -472,7 +472,10 @@ func cmdCheck(argv []string) int {
 			}
 		}
 		switch {
-		case o.Result == "sat" || baseline[name] || replayed:
+		case o.Result == "sat" || baseline[name] || replayed || (a.kind == "frame" && fnInBaseline(baseline, name)):
+			// a frame obligation exists only for a heap the function changes: where the function was verified on the
+			// unchanged tree and the heap was not among those it changed, the obligation "this heap is left alone" held
+			// there trivially (never generated) - its failure now is the failure of an obligation that used to hold
 			suffix := ""
 			if !replayed {
 				suffix = " obligation=" + name + " result=" + o.Result + " no-failing-input-found"
@@ -635,6 +638,21 @@ func replayable(units []*Unit) []string {
 		}
 	}
 	return out
+}
+
+// fnInBaseline: some obligation of the function that name belongs to is in the baseline.
+func fnInBaseline(baseline map[string]bool, name string) bool {
+	i := strings.Index(name, "#")
+	if i < 0 {
+		return false
+	}
+	pre := name[:i+1]
+	for n := range baseline {
+		if strings.HasPrefix(n, pre) {
+			return true
+		}
+	}
+	return false
 }
 
 func countInstances(units []*Unit) int {
